@@ -19,7 +19,9 @@ CLAIMS = {
         "thread the code generated for join_spawn!/try_join_spawn! and the code generated for join!/try_join! end with the same value (same tuple "
         "or same failure), or both panic (specLoop_spawning_sim: forked-and-joined chains give what chains run one after the other give; "
         "carried to the generated code by the refinement theorem); async_spawn_agrees — join_async_spawn! and join_async! have the same "
-        "events and outcome under the canonical schedule. K1 runs every program under all configurations; K2 compiles the 12 names; hygiene "
+        "events and outcome under the canonical schedule; accepted_spawn_agrees: the same from one token list - the parser does not know "
+        "the macro name, whatever it accepts expands under the plain and the thread-spawning kind to codes that agree. K1 runs every program under "
+        "all configurations; K2 compiles the 12 names (and gate-free programs with several failures in one step, judged strictly); hygiene "
         "probe: for every identifier the real expansions write themselves, a program whose macro body uses a caller variable of that name "
         "gives the same value as with the variable renamed, in all twelve macros.",
         NOTE_COMMON + "The extractor additionally checks that the 12 entry points are textually identical up to the three booleans. "
@@ -99,7 +101,7 @@ CLAIMS["C06"] = (REFINE + "Props/C06: after a failing step j no event of a later
                  "chain of step k ends with a failure (or panics), then under EVERY schedule of gate openings every event emitted from there on "
                  "belongs to step k — no capture, chain or callback of a later step, no handler call — and the future is either still in step k "
                  "or finished with that step's failure, unchanged (or the panic); failed_step_result_every_schedule: polled with every gate open "
-                 "it is finished, with exactly that; accepted_async_try: the async-try refinement for whatever the parser accepts. " + K2NOTE, NOTE_COMMON + ASYNC_NOTE,
+                 "it is finished, with exactly that; accepted_async_try / accepted_failing_run: the async-try refinement and the aborted run (result = the failure, no handler call, no later step) for whatever the parser accepts. " + K2NOTE, NOTE_COMMON + ASYNC_NOTE,
                  "Lean 4 refinement proof + trace theorems; K2 event-log differential", "§7 C06")
 CLAIMS["C11"] = (REFINE + "Props/C11: the hoisting operator set equals the documented one (table theorem over regenerated T9); capture events are "
                  "exactly (active branch, position, operand) in order, once each; sorted before the chains of their step and after the previous "
@@ -112,12 +114,15 @@ CLAIMS["C11"] = (REFINE + "Props/C11: the hoisting operator set equals the docum
                  "Lean 4 table theorem + refinement + order theorems; K1/K2 differential", "§7 C11")
 CLAIMS["C12"] = (REFINE + "Props/C12: every capture of step k sees exactly the named branches' latest values (wrapped in try macros, finished "
                  "branches included), nothing in step 0; the generated code's visibility equals the reference's (invariant of the refinement). "
-                 "`let` does not change the result: by the refinement the result depends on names only through what user code reads. " + K2NOTE,
+                 "`let` does not change the result: by the refinement the result depends on names only through what user code reads "
+                 "(generated_let_invariant: two invocations differing only in their `let` names expand to codes with the same outcome). " + K2NOTE,
                  NOTE_COMMON + ASYNC_NOTE + "let_result_invariant: two invocations differing only in their `let` names, against user code that does not "
                  "read the names, have the same result and events (reference loop; carried to the code by the refinement).",
                  "Lean 4 refinement proof + visibility theorems; K2 snapshots of names in scope", "§7 C12")
 CLAIMS["C13"] = (REFINE + "Props/C13: then/map/and_then semantics of the reference (called exactly once with the values in branch order iff "
-                 "applicable, never after a failure); gen returns the rejection exactly for (non-try ∧ map/and_then) and (try ∧ then), ∀ inputs. "
+                 "applicable, never after a failure); accepted_then_handler: from the macro's tokens - whatever the parser accepts, the expanded code defines "
+                 "the `then` handler first, runs the loop and calls the handler exactly once, last, with the loop's values, returning its result; "
+                 "gen returns the rejection exactly for (non-try ∧ map/and_then) and (try ∧ then), ∀ inputs. "
                  "Parser half (parser model, every syn oracle): one handler definition anywhere among the branches gives the branches in the order written and "
                  "that handler (handler_anywhere), a second handler definition is rejected wherever the two stand (second_handler_rejected; "
                  "items_roundtrip_partial). Async: the handler's returned future is part of the poll-level plan (planRun) and of the every-schedule "
@@ -127,7 +132,8 @@ CLAIMS["C18"] = (REFINE + "Props/C18: a panicking chain/capture/handler makes th
                  "order; threads: at the join of the panicked thread, caller not blocked), and the trace then contains only events of steps up to "
                  "the panicking one; async_chain_panic_every_schedule: in a non-try async macro a panicking chain of step k makes the future, under "
                  "every schedule that ends with all gates open, complete with the panic of one of step k's panicking chains, nothing of a later "
-                 "step having run. " + K2NOTE, NOTE_COMMON + ASYNC_NOTE + "Behaviour of tokio on a panicking task is assumed (template __spawn_tokio).",
+                 "step having run; accepted_panics: from the macro's tokens - whatever the parser accepts, the expanded code panics exactly when "
+                 "and with what the reference semantics does. " + K2NOTE, NOTE_COMMON + ASYNC_NOTE + "Behaviour of tokio on a panicking task is assumed (template __spawn_tokio).",
                  "Lean 4 refinement + panic propagation theorems; K2 panic injection with watchdog", "§7 C18")
 CLAIMS["C01"] = ("Props/C01 (Lean 4): each of the 23 documented token sequences selects its combinator in the ordered determiner table, for "
                  "every continuation (∀ rest; the two prefix cases `=>`/`=>[]`, `?|>`/`?|>@` with their side condition); the extracted operand "
